@@ -4,13 +4,14 @@ usage: seedprompt.py <property-id> [variant-hint]"""
 import json, sys
 pid = sys.argv[1]
 hint = sys.argv[2] if len(sys.argv) > 2 else ""
+out = sys.argv[3] if len(sys.argv) > 3 else pid
 for l in open('/verif/properties.jsonl'):
     d = json.loads(l)
     if d['id'] == pid:
         break
 print(f"""You are helping evaluate a verification tool. Your job: craft realistic code changes ("seeded bugs") to a Go library that BREAK one stated semantic property while the code still compiles and the existing test suite still passes.
 
-The library is vbauerster/mpb (multi progress bars for terminals). You have your own scratch git worktree at /tmp/wt/{pid} (work ONLY there; do not touch /repo or /verif, and do not read anything under /verif). The sandbox is offline: prefix every shell command that uses go with
+The library is vbauerster/mpb (multi progress bars for terminals). You have your own scratch git worktree at /tmp/wt/{out} (work ONLY there; do not touch /repo or /verif, and do not read anything under /verif). The sandbox is offline: prefix every shell command that uses go with
   export GOFLAGS=-mod=mod GOPROXY=off GOSUMDB=off GOTOOLCHAIN=local
 (environment does not persist between commands).
 
@@ -26,9 +27,9 @@ What to produce: TWO different changes (call them A and B), in different functio
 Only edit non-test .go files of the library for the change itself (do not edit existing tests, go.mod, or any *_verif.go file). Change A and change B must be independent: develop A, save it, `git checkout -- .` (and remove the demo file), then develop B.
 
 Save the results (create directories as needed):
-  /tmp/seed/{pid}/A/patch.diff      - `git diff` of the library change only (NOT including the demo test), applicable with `git apply` at the worktree root
-  /tmp/seed/{pid}/A/zz_seed_demo_test.go - the demonstration test
-  /tmp/seed/{pid}/A/meta.json       - {{"property": "{pid}", "summary": "...one line...", "files": [...], "functions": [...], "needs": "what specific input/config/schedule makes it manifest", "demo_pkg_dir": "directory (relative to repo root) where the demo test file goes", "demo_cmd": "go test -vet=off -count=1 -run TestSeedDemo ./<dir>", "demo_fails_on_patched": true, "demo_passes_on_clean": true, "suite_passes_on_patched": true}}
-and the same under /tmp/seed/{pid}/B/. Leave the worktree clean (`git checkout -- . && git clean -fd`) when done.
+  /tmp/seed/{out}/A/patch.diff      - `git diff` of the library change only (NOT including the demo test), applicable with `git apply` at the worktree root
+  /tmp/seed/{out}/A/zz_seed_demo_test.go - the demonstration test
+  /tmp/seed/{out}/A/meta.json       - {{"property": "{pid}", "summary": "...one line...", "files": [...], "functions": [...], "needs": "what specific input/config/schedule makes it manifest", "demo_pkg_dir": "directory (relative to repo root) where the demo test file goes", "demo_cmd": "go test -vet=off -count=1 -run TestSeedDemo ./<dir>", "demo_fails_on_patched": true, "demo_passes_on_clean": true, "suite_passes_on_patched": true}}
+and the same under /tmp/seed/{out}/B/. Leave the worktree clean (`git checkout -- . && git clean -fd`) when done.
 
 In your final answer, for each of A and B give: the one-line summary, the function changed, what makes it manifest, and confirm the three booleans with how you checked. If you could not find a second change that passes the test suite, say so rather than weakening the requirements.""")
